@@ -7,7 +7,11 @@ import common
 def main():
     chk = common.Check('C14')
     import fmtcheck_common as C
-    proved = chk.prove('I18n.Props.C14', generated=('cfmt', 'pyfmt', 'tagsites', 'intexpr', 'grammar', 'fmtcheck'))
+    proved = chk.prove('I18n.Props.C14', generated=('cfmt', 'pyfmt', 'tagsites', 'intexpr', 'grammar', 'fmtcheck', 'fmtargs'), extra_targets=())
+    # the tie: check_args x4 + get_last_integer_conversion regenerated from the current source and proved equal to the model (Props/C14Tie.lean)
+    tie_ok = common.prove_tie(chk, 'I18n.Props.C14Tie', ('fmtargs',),
+                              'the check_args / get_last_integer_conversion regenerated from the current lib/check/msgformat/*.py and lib/strformat/c.py are no '
+                              'longer proved equal to the comparators of Model/FmtCheck.lean (generated_*_check_args_eq_model and their corollaries)')
     problems = ' '.join(chk.lean.problems)
     driver_ok = os.path.exists(common.driver_path()) and not any('untranslatable' in s for s in chk.lean.translation.values()) \
         and 'Driver' not in problems and 'I18n.Model' not in problems and 'I18n.Spec' not in problems
@@ -61,6 +65,11 @@ def main():
         chk.stream('fmtcheck-unit-strings', slines, souts)
         ll, lo = C.lastint_cases(rng, n_lastint)
         chk.stream('fmtcheck-lastint', ll, lo)
+        if tie_ok:          # the same inputs through the definitions regenerated from the source (driver ops grun / gruns / glastint)
+            g = lambda ls: [l.replace('fmtcheck runs ', 'fmtcheck gruns ', 1).replace('fmtcheck run ', 'fmtcheck grun ', 1).replace('fmtcheck lastint ', 'fmtcheck glastint ', 1) for l in ls]
+            chk.stream('fmtcheck-unit-generated', g(lines), outs)
+            chk.stream('fmtcheck-unit-strings-generated', g(slines), souts)
+            chk.stream('fmtcheck-lastint-generated', g(ll), lo)
     else:
         chk.broken.append({'kind': 'correspondence', 'stream': 'fmtcheck-*', 'problem': 'driver could not be rebuilt from the regenerated model'})
     chk.note_cases({(c['primary'], c['msgid']['text'], c['msgstr']['text'], tuple(sorted((i, s['text']) for i, s in c['msgstr_plural'].items())))
@@ -89,6 +98,8 @@ def main():
         if driver_ok:
             chk.stream('fmtcheck-e2e', lines, outs)
             chk.stream('fmtcheck-e2e-strings', slines, souts)
+            if tie_ok:
+                chk.stream('fmtcheck-e2e-generated', g(lines), outs)
     finally:
         shutil.rmtree(work, ignore_errors=True)
 
@@ -126,7 +137,9 @@ def main():
              'least one format tag',
         trusted=['Lean 4.33 kernel', 'axioms: propext, Classical.choice, Quot.sound only',
                  'translators cfmt2lean / pyfmt2lean (type tables), tagsites2lean (tag call inventory), intexpr2lean / grammar2lean (plural evaluators), fmtcheck2lean (probes of check_args and get_last_integer_conversion, re-computed by the model in the kernel)',
-                 'the model of check_message / check_args / get_last_integer_conversion / the dispatch is hand-written: tied by the fmtcheck-* streams',
+                 'the comparators check_args x4 and get_last_integer_conversion are tied by translation + proof: tools/translate/fmtargs2lean.py (over tools/translate/pytr; rules and '
+                 'representation conventions in its docstring and DESIGN-notes/fmtcheck.md) and the kit lean/I18n/PyKit.lean are trusted; the regenerated definitions are PROVED equal to the model '
+                 '(Props/C14Tie.lean) and are exercised against CPython by the *-generated streams; check_message, check_string, check_msgids and the dispatch are hand-written: tied by the fmtcheck-* streams',
                  'the parsers: C and Python-% through the models of C11 / C12, python-brace and perl-brace through the models of C13 (their own streams); '
                  'the brace kinds are streamed both with the signature extracted from the real parser object and as raw strings',
                  'message_repr (prefix) is an input computed by calling the real function; single-string diagnostics are compared by name and prefix only',
@@ -134,6 +147,9 @@ def main():
         explanation=EXPLANATION)
 
 EXPLANATION = (
+    'TIE: Generated/FmtArgs.lean is regenerated from the current lib/check/msgformat/{c,python,pybrace,perlbrace}.py (check_args) and lib/strformat/c.py (get_last_integer_conversion) on '
+    'every run; Props/C14Tie.lean proves each regenerated function equal to the model for all inputs (generated_*_check_args_eq_model, generated_get_last_integer_conversion_eq_model, '
+    'generated_check_formats_eq_model) and restates the args_tags_iff theorems about the regenerated definitions; a source change breaks a proof or the translation (coverage.tie) and starts the falsifier.  '
     'Proved in Lean (Props/C14.lean), for all inputs: c_args_tags_iff (for all valid printf item lists src, dst: excess / missing / type-mismatch '
     'tags are emitted iff the signatures of Spec.Printf differ in count / in the type at a common position, one type tag per such position, nothing '
     'else), c_same_signature_silent, c_reorder_silent (same arguments at the same types through numbered references in any order => no tag), '
